@@ -194,3 +194,88 @@ def _cell_ok(c) -> bool:
         return True
     except ValueError:
         return False
+
+
+# ---------------------------------------------------------------------------------------------------------------------
+# Paths of one CrossHair condition run in ONE worker process.  Module-level memo tables of the code under test (a dict in
+# a module, a lazily filled class attribute) would carry what one path did into the next one; a counterexample found that
+# way does not reproduce on its own.  reset_module_state() puts every module-level / class-level container of the ahbicht
+# modules back to what it was right after import.  A harness calls it (via path_start) ONCE at the beginning of a path —
+# never in the middle, so that histories inside a path stay intact.
+# ---------------------------------------------------------------------------------------------------------------------
+_SNAPSHOT: Dict[Any, Any] = {}
+
+
+def _state_holders():
+    import sys
+
+    for name, mod in list(sys.modules.items()):
+        if not name.startswith("ahbicht") or mod is None:
+            continue
+        yield mod
+        for v in list(vars(mod).values()):
+            if isinstance(v, type) and getattr(v, "__module__", "") == name:
+                yield v
+
+
+def _snap_value(v):
+    import copy
+
+    if isinstance(v, (dict, list, set)):
+        try:
+            return ("container", copy.copy(v))
+        except Exception:  # pylint:disable=broad-except
+            return None
+    if v is None or isinstance(v, (int, str, bool, float, tuple, frozenset)):
+        return ("value", v)
+    return None
+
+
+def snapshot_module_state() -> None:
+    with nt():
+        for holder in _state_holders():
+            for attr, v in list(vars(holder).items()):
+                if attr.startswith("__") and attr.endswith("__"):
+                    continue
+                if (id(holder), attr) in _SNAPSHOT:
+                    continue  # first sighting wins
+                snap = _snap_value(v)
+                if snap is not None:
+                    _SNAPSHOT[(id(holder), attr)] = (holder, v if snap[0] == "container" else None, snap)
+
+
+def reset_module_state() -> None:
+    if not _SNAPSHOT:
+        snapshot_module_state()
+        return
+    with nt():
+        for (_hid, attr), (holder, obj, snap) in _SNAPSHOT.items():
+            kind, val = snap
+            try:
+                cur = vars(holder).get(attr, _SNAPSHOT)
+                if kind == "container":
+                    if cur is not obj:
+                        setattr(holder, attr, obj)  # rebound: put the original object back ...
+                    if isinstance(obj, dict):
+                        if obj != val:
+                            obj.clear()
+                            obj.update(val)
+                    elif isinstance(obj, list):
+                        if obj != val:
+                            obj[:] = val
+                    elif obj != val:
+                        obj.clear()
+                        obj.update(val)
+                elif cur is not val and cur != val:
+                    setattr(holder, attr, val)  # e.g. a lazily filled class attribute that was None after import
+            except Exception:  # pylint:disable=broad-except
+                continue
+    snapshot_module_state()  # modules imported since the last call: remember them as they are now
+
+
+def path_start(real_lru: bool = False) -> None:
+    """beginning of a harness path: code-under-test state as right after import (memo tables, lru caches)"""
+    global REAL_LRU
+    REAL_LRU = real_lru
+    reset_module_state()
+    clear_ahbicht_caches()
